@@ -172,7 +172,9 @@ func runC03(c *vlib.Ctx) {
 							c.Violate(fmt.Sprintf("restart:%s:%s:after-%s:%s", j.w, mode, opname(from), cls),
 								fmt.Sprintf("workload %s, %s restart after op #%d (%s): %s, %s differs from the run without restart: %s", j.w, mode, from, opname(from), when, comp, wlShortDiff(L[comp], R[comp])), rep)
 						}
-						break
+						// a run that has diverged is not followed further: later differences are consequences of this one
+						c.Nontrivial(fmt.Sprintf("%s|%v|%v", j.w, j.cuts, j.modes))
+						return
 					}
 					c.Outcome("same")
 				}
